@@ -49,7 +49,8 @@ pub fn keyed_list(v: u32) -> Vec<u32> {
 }
 
 pub fn dtext_str(v: u32) -> String {
-    if v % 4 == 0 { String::new() } else { v.to_string() }
+    // empty for multiples of four; markup metacharacters for v = 7 (mod 8): `7&<`
+    if v % 4 == 0 { String::new() } else if v % 8 == 7 { format!("{v}&<") } else { v.to_string() }
 }
 
 /// the store once the view has been built: top-level `setnow` writes applied in document order
